@@ -79,3 +79,26 @@ Theorem modifiers_init_examples :
   parse_om_item "H2:-2.0 * k[0],[H H]"%string = Some ("H2", "-2.0 * k[0]", ["H"; "H"])%string.
 Proof. vm_compute. split; reflexivity. Qed.
 Print Assumptions modifiers_init_examples.
+
+(** the emitted text of a modifier term: whatever the factor is - as long as it parses on its own as a C
+    expression - the row text parses with the factor kept together as one operand (the parentheses written
+    around it isolate it from the neighbouring operators), for ALL rows and ALL factor texts *)
+From Naunet Require Import Model.CExpr Model.OdeText Proofs.ModTextProofs.
+Theorem modifier_factor_stays_one_operand : forall gs : list gterm,
+  facts_parse gs = true -> parse (grhs_txt gs) = Some (gsum_ex zero_lit (map to_gs gs)).
+Proof. exact parse_grhs. Qed.
+Print Assumptions modifier_factor_stays_one_operand.
+
+(* the two generic facts it rests on: an expression that parses on its own parses identically, with any larger
+   fuel, in front of a closing parenthesis; and "(" text ")" lexes to "(", the tokens of the text, ")" *)
+From Naunet Require Import Proofs.ParserFrame Proofs.LexerFrame.
+Theorem parser_frame : forall n ts e r m k,
+  pcond n ts = Some (e, r) -> n <= m ->
+  pcond m (ts ++ TOp ")"%char :: k)%list = Some (e, (r ++ TOp ")"%char :: k)%list).
+Proof. exact pcond_frame. Qed.
+Print Assumptions parser_frame.
+Theorem lexer_frame : forall fact rest acc,
+  lex_go 0 [] (C "("%char :: fact ++ C ")"%char :: rest)%list acc =
+  lex_go 0 [] rest (TOp ")"%char :: rev (lex fact) ++ TOp "("%char :: acc)%list.
+Proof. exact lex_paren. Qed.
+Print Assumptions lexer_frame.
